@@ -327,6 +327,14 @@ impl<T> Buffer<T> {
     pub fn new(size: usize) -> Result<Self> {
         #[cfg(feature = "verif")]
         let size = crate::verif::buffer_size(size);
+        let member_size = std::mem::size_of::<T>();
+        if member_size == 0 || size % member_size != 0 {
+            // A sample straddling the end of the buffer would not be
+            // contiguous in the double mapping.
+            return Err(Error::msg(format!(
+                "buffer size {size} is not a multiple of the sample size {member_size}"
+            )));
+        }
         Ok(Self {
             state: Arc::new((
                 Mutex::new(BufferState {
